@@ -14,7 +14,9 @@ var (
 	_ = (*CallableStepSchema[verifStepData, verifInput]).Call
 	_ = (*CallableStepSchema[verifStepData, verifInput]).CallSignal
 	_ = (*CallableStepSchema[verifStepData, verifInput]).setupStepData
+	_ = (*CallableStepSchema[verifStepData, verifInput]).SignalHandlers
 	_ = CallableSignalSchema[verifStepData, verifInput].Call
+	_ = CallableSignalSchema[verifStepData, verifInput].ToSignalSchema
 	_ = TypedStringEnumSchema[verifNamedString].Unserialize
 	_ = TypedStringEnumSchema[verifNamedString].UnserializeType
 	_ = EnumSchema[string, verifNamedString].Validate
